@@ -213,7 +213,7 @@ CHECKS = {
         ],
         "units": [
             {"name": "import", "module": "harness", "pkg": "./checks/c14", "test": "TestC14", "tags": "verif",
-             "quick": {"checks": 150, "shards": 16, "timeout": 600},
+             "quick": {"checks": 400, "shards": 16, "timeout": 600},
              "thorough": {"checks": 4000, "shards": 16, "timeout": 3600, "shrink": "60s"}},
         ],
     },
